@@ -1,9 +1,12 @@
 (* Driver for the DistributedEnforcer *Self operations (coq/Dist.v on coq/Machine.v's state).
-   case: (ID (cfg (pt isg arity prio)...) (kind rbac|domain) (links (pt (names) (domains))...)
-             (reqs (field...)...) (from K) (digest 0|1) (ops (op bit...)...))
-   One model replica per persist bit; every replica starts from the empty enforcer over an empty
-   adapter.  For every step k >= K and replica i prints, like harness/c19.go:
-     ID <TAB> k.i.res | k.i.adlog | k.i.adcontent | k.i.listed | k.i.links.<pt> | k.i.dec <TAB> value
+   case: (ID (cfg (pt isg arity prio)...) (kind rbac|domain|priority) (links (pt (names) (domains))...)
+             (reqs (field...)...) (uni (pt (rule...))...) (wired 0|1 ...) (from K) (digest 0|1) (ops (op bit...)...))
+   One model replica (Dist.replica) per persist bit; every replica starts from the empty enforcer
+   over an empty adapter; a wired replica has its own dispatcher (rep_disp = Some []).  For every
+   step k >= K and replica i prints, like harness/c19.go:
+     ID <TAB> k.i.res | k.i.adlog | k.i.adcontent | k.i.listed | k.i.has | k.i.links.<pt> | k.i.dec
+            | k.i.disp (wired replicas only) <TAB> value
+   has = what the index of every type of the universe knows about the universe's rules.
    or, with (digest 1), ONE line per case: ID <TAB> all <TAB> MD5 over "k.i." and these values, newline-terminated. *)
 open Common
 open Machine
@@ -88,13 +91,30 @@ let decisions kind s reqs =
     match kind, q with
     | "rbac", [su; ob; ac] -> Sx.b2s (decide_rbac s (cs su) (cs ob) (cs ac))
     | "domain", [su; dm; ob; ac] -> Sx.b2s (decide_domain s (cs su) (cs dm) (cs ob) (cs ac))
+    | "priority", [su; ob; ac] ->
+        (match decide_priority s (cs su) (cs ob) (cs ac) with Some b -> Sx.b2s b | None -> "E")
     | _ -> failwith "bad request") reqs)
+
+(* what the index of every type knows about the rules of the universe *)
+let has_key s uni =
+  Stdlib.String.concat "" (Stdlib.List.map (fun (pt, rules) ->
+    Stdlib.String.concat "" (Stdlib.List.map (fun r -> Sx.b2s (Store.has (get_store s pt) r)) rules) ^ "|") uni)
+
+(* the calls a replica handed to its own dispatcher, by the name of the persist.Dispatcher method *)
+let disp_name = function
+  | DAdd _ -> "AddPolicies" | DRemove _ -> "RemovePolicies" | DRemoveFiltered _ -> "RemoveFilteredPolicy"
+  | DClear -> "ClearPolicy" | DUpdate _ -> "UpdatePolicy" | DUpdateMany _ -> "UpdatePolicies"
+  | DUpdateFiltered _ -> "UpdateFilteredPolicies"
+let disp_key = function
+  | None -> "none"
+  | Some l -> "[" ^ Stdlib.String.concat " " (Stdlib.List.map disp_name l) ^ "]"
 
 let () =
   Sx.iter_stdin (fun c ->
     match Sx.list c with
     | [id; Sx.L (Sx.A "cfg" :: cfg); Sx.L [Sx.A "kind"; kind]; Sx.L (Sx.A "links" :: links);
-       Sx.L (Sx.A "reqs" :: reqs); Sx.L [Sx.A "from"; from]; Sx.L [Sx.A "digest"; digest]; Sx.L (Sx.A "ops" :: ops)] ->
+       Sx.L (Sx.A "reqs" :: reqs); Sx.L (Sx.A "uni" :: uni); Sx.L (Sx.A "wired" :: wired);
+       Sx.L [Sx.A "from"; from]; Sx.L [Sx.A "digest"; digest]; Sx.L (Sx.A "ops" :: ops)] ->
         let digest = Sx.atom digest = "1" in
         let id = Sx.atom id in
         let kind = Sx.atom kind in
@@ -103,35 +123,44 @@ let () =
         let reqs = Stdlib.List.map Sx.atoms reqs in
         let links = Stdlib.List.map (fun l -> match Sx.list l with
           | [pt; names; doms] -> (Sx.atom pt, Sx.atoms names, Sx.atoms doms) | _ -> failwith "bad links") links in
+        let uni = Stdlib.List.map (fun l -> match Sx.list l with
+          | [pt; rules] -> (cs (Sx.atom pt), crules rules) | _ -> failwith "bad uni") uni in
+        let wired = Array.of_list (Stdlib.List.map (fun w -> Sx.atom w = "1") wired) in
         let nrep = match ops with o :: _ -> Stdlib.List.length (Sx.list o) - 1 | [] -> 0 in
-        let reps = Array.init nrep (fun _ -> init_state cfg false false WNone []) in
+        if Array.length wired <> nrep then failwith "bad wired";
+        let reps = Array.init nrep (fun i ->
+          { rep_m = init_state cfg false false WNone []; rep_disp = (if wired.(i) then Some [] else None) }) in
         let acc = Buffer.create 1024 in
         Stdlib.List.iteri (fun k entry ->
           match Sx.list entry with
           | opx :: bits ->
               let op = parse_op opx in
               Stdlib.List.iteri (fun i bit ->
-                let s = reps.(i) in
+                let rp = reps.(i) in
+                let s = rp.rep_m in
                 let seen = Stdlib.List.length s.ad.alog in
-                let (s', res) = match op with
-                  | Op o -> let (s', r) = dstep cfg s o (Sx.atom bit = "1") in (s', res_str false r)
-                  | FailNext n -> ({ s with ad = { s.ad with fail_in = Some (Conv.nat_of_int n) } }, "ok") in
-                reps.(i) <- s';
+                let (rp', res) = match op with
+                  | Op o -> let (rp', r) = rstep cfg rp o (Sx.atom bit = "1") in (rp', res_str false r)
+                  | FailNext n -> ({ rp with rep_m = { s with ad = { s.ad with fail_in = Some (Conv.nat_of_int n) } } }, "ok") in
+                reps.(i) <- rp';
+                let s' = rp'.rep_m in
                 if k >= from then begin
                   let out name v = Printf.printf "%s\t%d.%d.%s\t%s\n" id k i name v in
                   let adlog = Stdlib.String.concat " ; " (Stdlib.List.map acall_str (drop seen s'.ad.alog)) in
                   let lks = Stdlib.List.map (fun (pt, names, doms) -> (pt, links_key s' pt names doms)) links in
                   if digest then
                     Buffer.add_string acc (Stdlib.String.concat "\n"
-                      ([Printf.sprintf "%d.%d." k i; res; adlog; content_key s'.ad.content; listed_key (listed cfg s')]
-                       @ Stdlib.List.map snd lks @ [decisions kind s' reqs]) ^ "\n")
+                      ([Printf.sprintf "%d.%d." k i; res; adlog; content_key s'.ad.content; listed_key (listed cfg s'); has_key s' uni]
+                       @ Stdlib.List.map snd lks @ [decisions kind s' reqs; disp_key rp'.rep_disp]) ^ "\n")
                   else begin
                     out "res" res;
                     out "adlog" adlog;
                     out "adcontent" (content_key s'.ad.content);
                     out "listed" (listed_key (listed cfg s'));
+                    out "has" (has_key s' uni);
                     Stdlib.List.iter (fun (pt, v) -> out ("links." ^ pt) v) lks;
-                    out "dec" (decisions kind s' reqs)
+                    out "dec" (decisions kind s' reqs);
+                    if wired.(i) then out "disp" (disp_key rp'.rep_disp)
                   end
                 end) bits
           | [] -> failwith "bad log entry") ops;
